@@ -23,7 +23,7 @@ CFG = dict(
     technique="Lean 4 proof (induction over fault scripts with an explicit cursor invariant; refutation of the pre-fix cursor handling) + regenerated "
               "facts + differential run of the real client against a fault-injecting fake node",
     lean=["Ssv.Props.C13"],
-    engines=[dict(harness="logstream", driver="m_logstream", case_delim="reset", n_quick=400, n_thorough=6000, thorough_seeds=4,
+    engines=[dict(harness="logstream", driver="m_logstream", case_delim="reset", n_quick=400, n_thorough=15000, thorough_seeds=4,
                   n_search=1500, search_seeds=3)],
     rule="one case = fresh fake node + real ExecutionClient (batch 1..8, follow 0..8, start 0..1000, log density 0..100%, removed share 0..100%, "
          "blocks with > 12 logs sharing sort keys), optionally a historical sync first (head below/at/above follow distance, eth_blockNumber "
